@@ -1,6 +1,7 @@
 package c18
 
 import (
+	"encoding/json"
 	"fmt"
 	"net/http"
 	"strings"
@@ -99,4 +100,204 @@ func TestDefaultConstructors(t *testing.T) {
 			}
 		}
 	})
+}
+
+// Part "multi-instance": several SimpleHTTP instances, some built on one shared *http.Client, are
+// re-pointed at clients (fresh ones, the shared one, each other's) in a drawn order. Whatever the
+// SetHTTPClient history: a request made through instance i runs instance i's own registered
+// interceptors exactly once each, in order, and ends in exactly one call of a real transport.
+// (Interceptors of other instances that sit in the same client's transport chain may run as well;
+// that is not asserted either way.)
+
+type multiOp struct {
+	Kind int   `json:"kind"` // 0 add, 1 remove, 2 SetHTTPClient(fresh), 3 SetHTTPClient(shared), 4 SetHTTPClient(client of instance Arg), 5 request
+	Inst int   `json:"inst"`
+	Arg  int   `json:"arg"`
+	IDs  []int `json:"ids"`
+}
+
+type multiCase struct {
+	Insts  int       `json:"insts"`
+	Shared []bool    `json:"shared"` // instance i is constructed on the shared client
+	Ops    []multiOp `json:"ops"`
+}
+
+func runMulti(c multiCase) (key, msg string, nontrivial bool) {
+	var log []string
+	shared := &http.Client{Transport: logRT{&log}}
+	mk := func(inst, id int) *network.Interceptor {
+		f := network.Interceptor(func(*http.Request) error {
+			log = append(log, fmt.Sprintf("I%d.%d", inst, id))
+			if len(log) > 400 {
+				return fmt.Errorf("runaway")
+			}
+			return nil
+		})
+		return &f
+	}
+	icpt := map[[2]int]*network.Interceptor{}
+	get := func(inst, id int) *network.Interceptor {
+		k := [2]int{inst, id}
+		if icpt[k] == nil {
+			icpt[k] = mk(inst, id)
+		}
+		return icpt[k]
+	}
+	insts := make([]*network.SimpleHTTPDef, c.Insts)
+	models := make([][]int, c.Insts)
+	moved := false
+	p, st := vlib.Try(func() {
+		for i := range insts {
+			if c.Shared[i] {
+				insts[i] = network.NewSimpleHTTPWithClientAndInterceptors(shared)
+			} else {
+				insts[i] = network.NewSimpleHTTPWithClientAndInterceptors(&http.Client{Transport: logRT{&log}})
+			}
+		}
+		for step, o := range c.Ops {
+			in := insts[o.Inst]
+			switch o.Kind {
+			case 0:
+				for _, id := range o.IDs {
+					in.AddInterceptor(get(o.Inst, id))
+					models[o.Inst] = append(models[o.Inst], id)
+				}
+			case 1:
+				for _, id := range o.IDs {
+					in.RemoveInterceptor(get(o.Inst, id))
+					var nm []int
+					for _, x := range models[o.Inst] {
+						if x != id {
+							nm = append(nm, x)
+						}
+					}
+					models[o.Inst] = nm
+				}
+			case 2:
+				in.SetHTTPClient(&http.Client{Transport: logRT{&log}})
+				moved = true
+			case 3:
+				in.SetHTTPClient(shared)
+				moved = true
+			case 4:
+				in.SetHTTPClient(insts[o.Arg%c.Insts].GetHTTPClient())
+				moved = true
+			case 5:
+				log = nil
+				resp := in.Get("http://c18.multi/x")
+				if resp.Err != nil {
+					key, msg = "C18/multi-instance", fmt.Sprintf("step %d: request through instance %d failed: %v (log %v)", step, o.Inst, resp.Err, log)
+					return
+				}
+				var own []string
+				ts := 0
+				for i, e := range log {
+					if strings.HasPrefix(e, fmt.Sprintf("I%d.", o.Inst)) {
+						own = append(own, e)
+					}
+					if e == "T" {
+						ts++
+						if i != len(log)-1 {
+							key, msg = "C18/multi-instance", fmt.Sprintf("step %d: the transport was reached before the end of the chain: %v", step, log)
+							return
+						}
+					}
+				}
+				var want []string
+				for _, id := range models[o.Inst] {
+					want = append(want, fmt.Sprintf("I%d.%d", o.Inst, id))
+				}
+				if strings.Join(own, ",") != strings.Join(want, ",") || ts != 1 {
+					key = "C18/multi-instance"
+					msg = fmt.Sprintf("step %d: request through instance %d ran %v (its own interceptors: %v, transports: %d), want its registered chain %v exactly once and one transport call", step, o.Inst, log, own, ts, want)
+					return
+				}
+				if moved && c.Insts >= 2 {
+					nontrivial = true
+				}
+			}
+		}
+	})
+	if p != nil && key == "" {
+		key, msg = "C18/multi-instance-panic", fmt.Sprintf("%v\n%s", p, firstFrames(st))
+	}
+	return
+}
+
+func TestMultiInstance(t *testing.T) {
+	if vlib.Replaying() {
+		t.Skip()
+	}
+	vlib.Check(t, "multi-instance", 3000, 30000, func(t *rapid.T) {
+		n := rapid.IntRange(1, 3).Draw(t, "insts")
+		c := multiCase{Insts: n}
+		for i := 0; i < n; i++ {
+			c.Shared = append(c.Shared, rapid.IntRange(0, 2).Draw(t, "shared") > 0)
+		}
+		steps := rapid.IntRange(1, 12).Draw(t, "steps")
+		for i := 0; i < steps; i++ {
+			o := multiOp{Kind: rapid.SampledFrom([]int{0, 0, 1, 2, 3, 4, 5, 5, 5}).Draw(t, "kind"), Inst: rapid.IntRange(0, n-1).Draw(t, "inst")}
+			switch o.Kind {
+			case 0, 1:
+				o.IDs = rapid.SliceOfN(rapid.IntRange(0, 2), 1, 2).Draw(t, "ids")
+			case 4:
+				o.Arg = rapid.IntRange(0, n-1).Draw(t, "of")
+			}
+			c.Ops = append(c.Ops, o)
+		}
+		for i := 0; i < n; i++ {
+			c.Ops = append(c.Ops, multiOp{Kind: 5, Inst: i})
+		}
+		vlib.S().Eval("multi-instance")
+		key, msg, nt := runMulti(c)
+		if nt {
+			vlib.S().NonTrivial("multi-instance", fmt.Sprintf("%+v", c))
+		}
+		if key != "" {
+			vlib.WriteReplay("C18/multi", c)
+			if vlib.Fail(t, key, "%+v: %s", c, msg) {
+				t.Skip("known")
+			}
+		}
+	})
+}
+
+// Shrunk cases of the multi-instance part (plain regression checks, no generator involved).
+// The first is the history that failed on the tree before /repo 36bc8a1: A and B on one client,
+// A has an interceptor, B moves to another client, a request through A ran no interceptor.
+var multiDirected = []multiCase{
+	{Insts: 2, Shared: []bool{true, true}, Ops: []multiOp{{Kind: 0, Inst: 0, IDs: []int{0}}, {Kind: 2, Inst: 1}, {Kind: 5, Inst: 0}, {Kind: 5, Inst: 1}}},
+	{Insts: 2, Shared: []bool{true, true}, Ops: []multiOp{{Kind: 0, Inst: 0, IDs: []int{0}}, {Kind: 0, Inst: 1, IDs: []int{1}}, {Kind: 2, Inst: 0}, {Kind: 5, Inst: 0}, {Kind: 5, Inst: 1}, {Kind: 3, Inst: 0}, {Kind: 5, Inst: 0}, {Kind: 5, Inst: 1}}},
+	{Insts: 3, Shared: []bool{true, true, true}, Ops: []multiOp{{Kind: 0, Inst: 0, IDs: []int{0}}, {Kind: 0, Inst: 1, IDs: []int{1}}, {Kind: 0, Inst: 2, IDs: []int{2}}, {Kind: 2, Inst: 1}, {Kind: 5, Inst: 0}, {Kind: 5, Inst: 1}, {Kind: 5, Inst: 2}, {Kind: 4, Inst: 0, Arg: 1}, {Kind: 5, Inst: 0}, {Kind: 5, Inst: 1}, {Kind: 5, Inst: 2}}},
+}
+
+func TestMultiInstanceRegress(t *testing.T) {
+	if vlib.Replaying() {
+		t.Skip()
+	}
+	for i, c := range multiDirected {
+		vlib.S().Eval("multi-instance")
+		key, msg, nt := runMulti(c)
+		if nt {
+			vlib.S().NonTrivial("multi-instance", fmt.Sprintf("%+v", c))
+		}
+		if key != "" {
+			vlib.WriteReplay("C18/multi", c)
+			vlib.Fail(t, key, "directed case %d %+v: %s", i, c, msg)
+		}
+	}
+}
+
+func TestMultiInstanceReplay(t *testing.T) {
+	raw := vlib.ReplayCase("C18/multi")
+	if raw == nil {
+		t.Skip("no replay case")
+	}
+	var c multiCase
+	if err := json.Unmarshal(raw, &c); err != nil {
+		t.Fatal(err)
+	}
+	if key, msg, _ := runMulti(c); key != "" {
+		t.Fatalf("[key=%s] %s", key, msg)
+	}
 }
